@@ -359,7 +359,7 @@ class Check:
                 return
         self.violations.append({"key": key, "what": what, "replay": replay, "found_input": found_input})
 
-    def finish(self):
+    def finish(self, write_evidence=True):
         if self.finished:
             return
         self.finished = True
@@ -407,7 +407,8 @@ class Check:
         ev = {"property_id": self.pid, "tier": self.tier, "seed": self.seed, "level": "proof",
               "coverage": cov, "assumptions": self.assumptions, "wall_s": round(time.time() - self.t0, 2),
               "violations": len(self.violations)}
-        json.dump(ev, open(os.path.join(VERIF, "evidence", self.pid + ".json"), "w"), indent=1, default=str)
+        if write_evidence:       # a --replay run re-executes one recorded input; it must not replace the run's evidence
+            json.dump(ev, open(os.path.join(VERIF, "evidence", self.pid + ".json"), "w"), indent=1, default=str)
         for l in lines:
             print(l)
         self.log("done: obligations %d/%d, correspondences %d (%d disagree), evaluations %d, violations %d, known %d" % (
